@@ -204,8 +204,11 @@ def main(argv=None):
       rc = -9
     ep.close()
     if rc != 0:
-      err = open(ep.name).read()[-3000:]
-      harness_errors.append(f'worker {w} exit {rc}: {err}')
+      full = open(ep.name).read()
+      head = next((l for l in full.splitlines()
+                   if l.startswith('HARNESS-ERROR')), '')
+      err = full[-3000:]
+      harness_errors.append(f'worker {w} exit {rc}: {head} ... {err}')
   # ---- aggregate -----------------------------------------------------------
   total = collections.Counter()
   fam_stats = {}
@@ -352,6 +355,7 @@ def main(argv=None):
           'samples': samples or [{'note': 'no completed run to sample'}],
           'runs_requested': runs,
           'stopped_early_by_wall_budget': stopped_early,
+          'runs_cut_by_real_time_limit_and_not_judged': n_cut,
           'scheduling_steps': steps,
           'context_switches': sum(s['switches'] for s in fam_stats.values()),
           'scheduling_decisions': sum(s['decisions'] for s in fam_stats.values()),
